@@ -49,6 +49,27 @@ def run_repro(spec, rec):
     f, model, kwargs, expected, ref_terms, spin, init = ag.prepare(qv, spec)
     with warnings.catch_warnings():
         warnings.simplefilter("ignore")
+        big_seed = kwargs.get("seed") is not None and kwargs["seed"] >= 2 ** 31
+        if big_seed:
+            # a non-negative integer beyond the C int range: either it is refused (the unchanged library raises
+            # OverflowError) or it is a seed like any other - then two calls one clock second apart must agree as well
+            try:
+                r1 = lib(f, model, what=spec["func"], expect=(OverflowError,), **kwargs)
+            except OverflowError:
+                rec.add("seed_beyond_int_range_refused")
+                rec.case(spec, False, ["seed>=2^31", "refused"])
+                return
+            import time
+            if len(r1):
+                time.sleep(1.1)
+            r2 = lib(f, model, what=spec["func"], **kwargs)
+            a = [(sorted(r.state.items(), key=repr), r.value, r.spin) for r in r1]
+            b = [(sorted(r.state.items(), key=repr), r.value, r.spin) for r in r2]
+            if a != b:
+                raise Violation("not_reproducible/seed_beyond_int_range",
+                                "seed=%r is accepted but two identical calls 1.1 s apart differ" % (spec["seed"],))
+            rec.case(spec, False, ["seed>=2^31", "accepted"])
+            return
         explicit = not isinstance(kwargs.get("schedule"), str)
         if explicit:
             # first call: the explicit schedule as a plain list of floats; second call: the same temperatures in the
@@ -74,7 +95,9 @@ def run_repro(spec, rec):
 
 
 def repro_strategy():
-    return ag.call_spec(seeds=st.one_of(st.just(0), st.integers(0, 2 ** 31 - 1)),
+    small = st.integers(0, 2 ** 31 - 1)
+    return ag.call_spec(seeds=st.one_of(st.just(0), small, small, small, small, small, small, small, small, small, small,
+                                        st.sampled_from([2 ** 31, 2 ** 31 + 5, 2 ** 32 + 1, 2 ** 63 - 1])),
                         num_anneals=gen.pick((2, 3), (1, 2), (5, 2), (7, 1)), stale=False)
 
 
